@@ -413,18 +413,19 @@ def _fit_peak_single_model(
     fit_requirements: FitRequirements,
 ) -> FitResult:
     model = background + peak
+    if len(data) < len(model.param_names):
+        # not enough points to fit all parameters
+        # (checked first: the initial guesses below need a non-empty window)
+        return FitResult.for_too_narrow_window(
+            peak=peak, background=background, window=window
+        )
+
     bkg_p0 = _guess_background(data, model=background, fit_parameters=fit_parameters)
     p0 = {
         **bkg_p0,
         **_guess_peak(data, model=peak, fit_parameters=fit_parameters),
     }
     bounds = background.param_bounds | _peak_param_bounds(peak)
-
-    if len(data) < len(p0):
-        # not enough points to fit all parameters
-        return FitResult.for_too_narrow_window(
-            peak=peak, background=background, window=window
-        )
 
     bkg_goodness_stats = _fit_background(background, data, bkg_p0)
     try:
